@@ -353,3 +353,175 @@ def _dominates(a, b):
             return False
         x = getattr(x, "_parent", None)
     return False
+
+
+def curvature_admission_rule(rule, w):
+    """A max of functions is convex only if every argument is convex (a min concave only if every
+    argument is concave).  In the constructors of the max/min classes every statement that files a
+    caller-supplied element X into `self._flist` must therefore be reached only when
+    `type(X) is variable`, or `X._isconvex() and self._ismax`, or `X._isconcave() and not self._ismax`
+    (implication decided on the syntax-directed path condition).  Elements built in place from
+    constants (`_function() + cnst`) are affine and need no test."""
+    m = w.mods["modeling"]
+    n = 0
+    for q, fn in m.funcs.items():
+        if not (q.endswith(".__init__") and "minmax" in q):
+            continue
+        params = set(pf.arg_names(fn)) - {"self"}
+        for st in pf.stmts_of(fn):
+            elts = []
+            if isinstance(st, ast.AugAssign) and pf.norm_expr(st.target) == "self._flist" and isinstance(st.value, ast.List):
+                elts = st.value.elts
+            elif isinstance(st, ast.Assign) and any(pf.norm_expr(t) == "self._flist" for t in st.targets) and isinstance(st.value, ast.List):
+                elts = st.value.elts
+            elif isinstance(st, ast.Expr) and isinstance(st.value, ast.Call) and pf.norm_expr(st.value.func) in ("self._flist.append",):
+                elts = st.value.args
+            for e in elts:
+                x = e.operand if isinstance(e, ast.UnaryOp) and isinstance(e.op, ast.UAdd) else e
+                names = pf.names_in(x)
+                # provenance: a parameter, an element of one, or a loop variable ranging over one
+                loopvars = {}
+                p = st
+                while p is not None and p is not fn:
+                    if isinstance(p, ast.For) and isinstance(p.target, ast.Name):
+                        loopvars[p.target.id] = pf.names_in(p.iter)
+                    p = getattr(p, "_parent", None)
+                foreign = bool(names & params) or any(v in loopvars and loopvars[v] & params for v in names)
+                key = "modeling.%s:self._flist <- %s" % (q, pf.norm_expr(e))
+                where = m.where(st, fn)
+                if not foreign:
+                    if any(isinstance(c, ast.Call) and pf.norm_expr(c.func) == "_function" and not c.args for c in ast.walk(x)):
+                        n += 1
+                        rule.ok(key, where, "affine element built in place")
+                    continue
+                n += 1
+                xt = ast.unparse(x)
+                goal = pf.prop_of(ast.parse(
+                    "type(%s) is variable or (%s._isconvex() and self._ismax) or (%s._isconcave() and not self._ismax)" % (xt, xt, xt),
+                    mode="eval").body)
+                conds = pf.path_condition(st)
+                prem = pf.P_and(*conds) if conds else pf.P_TRUE
+                r = pf.implies(prem, goal)
+                if r:
+                    rule.ok(key, where, "reached only for a variable or a function of the matching curvature")
+                elif r is None:
+                    rule.undecided(key, where, "path condition too large")
+                else:
+                    rule.violation(key, where,
+                                   "`%s` is filed as an argument of the max/min without a test of its curvature on this path (path condition: %s): "
+                                   "max of a concave function (min of a convex one) is accepted and labelled convex (concave)"
+                                   % (xt, repr(prem)[:110]),
+                                   "%s._isconvex() and self._ismax or %s._isconcave() and not self._ismax" % (xt, xt), repr(prem)[:120])
+    return n
+
+
+def partial_overwrite_rule(rule, w):
+    """An in-place operator either updates the components of `self` (each new value computed from
+    the old one) or replaces the function altogether.  On a path to `return self`, the components
+    (attributes assigned in the class's __init__) that are overwritten with a value that does not
+    depend on the old components must be none or all of them: replacing only some leaves the
+    others contributing their old terms (f *= 0 that keeps the linear part)."""
+    m = w.mods["modeling"]
+    n = 0
+    for q, fn in m.funcs.items():
+        if q.count(".") != 1:
+            continue
+        cls, meth = q.split(".")
+        if cls not in EXPR_CLASSES or meth not in INPLACE:
+            continue
+        init = m.funcs.get(cls + ".__init__")
+        if init is None:
+            continue
+        comps = []
+        for s in pf.stmts_of(init):
+            if isinstance(s, ast.Assign):
+                for t in s.targets:
+                    if isinstance(t, ast.Attribute) and isinstance(t.value, ast.Name) and t.value.id == "self" and t.attr not in comps:
+                        comps.append(t.attr)
+        if len(comps) < 2:
+            continue
+        for r in [x for x in pf._scope_nodes(fn) if isinstance(x, ast.Return) and isinstance(x.value, ast.Name) and x.value.id == "self"]:
+            over = []
+            for s in pf.stmts_of(fn):
+                if not (isinstance(s, ast.Assign) and s.lineno < r.lineno and _dominates(s, r)):
+                    continue
+                for t in s.targets:
+                    if isinstance(t, ast.Attribute) and isinstance(t.value, ast.Name) and t.value.id == "self" and t.attr in comps:
+                        reads = {a.attr for a in ast.walk(s.value) if isinstance(a, ast.Attribute) and isinstance(a.value, ast.Name)
+                                 and a.value.id == "self"}
+                        if not (reads & set(comps)):
+                            over.append(t.attr)
+            n += 1
+            conds = pf.path_condition(r)
+            key = "modeling.%s:return self @ %s" % (q, repr(pf.P_and(*conds))[:70] if conds else "end")
+            where = m.where(r, fn)
+            if not over:
+                rule.ok(key, where, "components are updated, none replaced")
+            elif set(over) == set(comps):
+                rule.ok(key, where, "all of %s replaced" % ", ".join(comps))
+            else:
+                missing = [c for c in comps if c not in over]
+                rule.violation(key, where,
+                               "this path replaces %s with values independent of the old function but leaves %s untouched: the old %s keep "
+                               "contributing to the value of the result" % (", ".join("self." + c for c in over), ", ".join("self." + c for c in missing),
+                                                                           "terms" if len(missing) > 1 else "term"),
+                               "replace every component (%s) or none" % ", ".join(comps), "only " + ", ".join(over))
+    return n
+
+
+def sentinel_length_rule(rule, w):
+    """The constant term of a function is a vector of length 1 or len(f).  A test of its first
+    entry (`X._constant[0]` used as a truth value) says something about the whole constant only
+    when the length is 1: in the condition it occurs in, the outcome must not depend on the first
+    entry when `len(X._constant) == 1` is false (decided by truth table over the atoms of the
+    condition)."""
+    import itertools
+    m = w.mods["modeling"]
+    n = 0
+    for q, fn in m.funcs.items():
+        for sub in pf._scope_nodes(fn):
+            if not (isinstance(sub, ast.Subscript) and isinstance(sub.value, ast.Attribute) and sub.value.attr == "_constant"
+                    and isinstance(sub.slice, ast.Constant) and sub.slice.value == 0):
+                continue
+            # truth-value use: climb through not / and / or
+            top, p = sub, getattr(sub, "_parent", None)
+            while isinstance(p, ast.BoolOp) or (isinstance(p, ast.UnaryOp) and isinstance(p.op, ast.Not)):
+                top, p = p, getattr(p, "_parent", None)
+            in_test = isinstance(p, (ast.If, ast.While, ast.IfExp)) and p.test is top
+            if top is sub and not in_test:
+                continue                      # a value use (arithmetic, comparison, argument)
+            if not in_test and not isinstance(top, (ast.BoolOp, ast.UnaryOp)):
+                continue
+            n += 1
+            F = pf.prop_of(top)
+            Z = pf.norm_expr(sub)
+            base = pf.norm_expr(sub.value)
+            atoms = sorted(F.atoms())
+            L = [a for a in atoms if ("len(%s)" % base) in a and "==" in a and re.search(r"(^|[( ])1($|[) ])", a.replace("len(%s)" % base, ""))]
+            key = "modeling.%s:%s tested as a truth value" % (q, Z)
+            where = m.where(sub, fn)
+            if Z not in atoms:
+                rule.undecided(key, where, "use not recognised as an atom of the condition")
+                continue
+            if not L:
+                rule.violation(key, where,
+                               "the first entry of `%s` decides `%s` without a test that the constant has length 1: a vector constant whose "
+                               "first entry is 0 is treated as zero and dropped" % (base, pf.norm_expr(top)[:70]),
+                               "len(%s) != 1 or %s" % (base, Z), pf.norm_expr(top)[:90])
+                continue
+            others = [a for a in atoms if a not in (Z, L[0])]
+            dep = False
+            for vals in itertools.product((False, True), repeat=len(others)):
+                env = dict(zip(others, vals)); env[L[0]] = False
+                e1 = dict(env); e1[Z] = True
+                e0 = dict(env); e0[Z] = False
+                if F.ev(e1) != F.ev(e0):
+                    dep = True
+                    break
+            if dep:
+                rule.violation(key, where,
+                               "`%s` still depends on the first entry of the constant when its length is not 1" % pf.norm_expr(top)[:70],
+                               "len(%s) != 1 or %s" % (base, Z), pf.norm_expr(top)[:90])
+            else:
+                rule.ok(key, where, "only consulted when len(%s) == 1" % base)
+    return n
